@@ -17,7 +17,7 @@ from checks import common
 
 ID = 'C04'
 LEVEL = 'exploration'
-TIERS = {'quick': 12000, 'thorough': 1000000}
+TIERS = {"quick": 30000, "thorough": 2000000}
 BUDGET = {'quick': 150, 'thorough': 1500}
 RULE = ('seeded plans: universe descriptor + one abstract value + 2-5 replicas, each with a construction route '
         '(canonical | permuted order | explicit/implicit DEFAULTs | native Python arguments | decode of a BER form | clone of another '
@@ -38,7 +38,8 @@ READS = ['der', 'cer', 'ber', 'prettyPrint', 'str', 'iter', 'eq', 'len', 'in', '
 
 
 def gen_plan(r, index, tier):
-    w, cfg = common.gen_stream_workload(r, max_values=1, small=r.random() < 0.5, force_codec='ber', allow_f2=True)
+    w, cfg = common.gen_stream_workload(r, max_values=1, small=r.random() < 0.5, force_codec='ber', allow_f2=True,
+                                        constructed_default=r.random() < 0.5)
     desc = w['desc']
     if U.has_open(desc):
         cfg2 = U.GenCfg(max_depth=2, allow_open=False, allow_any=False)
@@ -110,6 +111,12 @@ def build_route(schema, desc, v, route, rnd):
         items = list(v)
         if route == 'permuted' and k == 'SETOF':
             items = _shuffled(items, rnd)
+        if route == 'permuted' and len(items) > 1 and rnd.random() < 0.5:
+            # fill the positions in a scrambled order (the library accepts assignment beyond len)
+            order = _shuffled(range(len(items)), rnd)
+            for i in order:
+                obj.setComponentByPosition(i, build_route(schema.componentType, desc['of'], items[i], route, rnd))
+            return obj
         for i, x in enumerate(items):
             child = build_route(schema.componentType, desc['of'], x, route, rnd)
             if route == 'permuted' and rnd.random() < 0.5:
